@@ -29,6 +29,9 @@ pub struct Case {
     /// when the flag is set it also runs first
     #[serde(default)]
     pub cohabitant: Option<(u64, bool)>,
+    /// bytes of left-over text at the output path before the run
+    #[serde(default)]
+    pub stale: u32,
 }
 
 pub fn check_case(c0: &Case) -> Verdict {
@@ -43,6 +46,10 @@ pub fn check_case(c0: &Case) -> Verdict {
     let dir = crate::scratch_dir();
     let input = io::write_input(dir.path(), "in", &c.recs, &c.cont);
     let out = dir.path().join("out.kcgr");
+    io::set_stale(c.stale as usize);
+    io::plant_stale(&out);
+    io::set_stale(0);
+    v.class_if(c.stale > 0, "output-path-holds-an-earlier-result");
     let mem = c.mem.bytes(&c.recs);
     let batches = c.mem.batches(&c.recs);
     v.class(match batches { 0 | 1 => "batches<=1", 2 => "batches=2", _ => "batches>=3" });
@@ -187,7 +194,7 @@ impl Leg for Runs {
         (prop_oneof![8 => 1usize..=6, 1 => Just(7usize)], gen::square_strategy(), any::<bool>(), gen::threads_strategy(), prop::sample::select(vec![Mem::OneByte, Mem::ThreeRecords, Mem::Half, Mem::Max]))
             .prop_flat_map(move |(k, s, norm, threads, mem)| {
                 let p = RecParams { max_records: if k >= 7 { 3 } else if k >= 5 { 8 } else { tier.pick(20, 80) }, scale: k, max_len: tier.pick(150, 400), degenerate_w: 2, bounds: [k, 0, 0], nuc_only: false };
-                (gen::records_in_container(p), prop_oneof![2 => Just(None), 1 => (gen::square_strategy(), any::<bool>()).prop_map(Some)]).prop_map(move |((recs, cont), cohabitant)| Case { recs, cont, k, s, norm, threads, mem, giant: None, via_cli: false, cohabitant })
+                (gen::records_in_container(p), prop_oneof![2 => Just(None), 1 => (gen::square_strategy(), any::<bool>()).prop_map(Some)], io::stale_strategy()).prop_map(move |((recs, cont), cohabitant, stale)| Case { recs, cont, k, s, norm, threads, mem, giant: None, via_cli: false, cohabitant, stale })
             })
             .boxed()
     }
@@ -206,7 +213,7 @@ impl Leg for Cli {
             .prop_flat_map(move |(k, norm, threads)| {
                 let s = prop_oneof![3 => Just(1u64), 1 => Just(2u64), 1 => Just(3u64), 2 => Just((k * k) as u64), 1 => Just(1u64 << 20), 4 => 1u64..=(1u64 << 20), 2 => 1u64..=64];
                 let p = RecParams { max_records: if k >= 7 { 3 } else if k >= 5 { 6 } else { tier.pick(12, 40) }, scale: k, max_len: tier.pick(150, 400), degenerate_w: 2, bounds: [k, 0, 0], nuc_only: false };
-                (gen::records_in_container(p), s).prop_map(move |((recs, cont), s)| Case { recs, cont, k, s, norm, threads, mem: Mem::Max, giant: None, via_cli: true, cohabitant: None })
+                (gen::records_in_container(p), s).prop_map(move |((recs, cont), s)| Case { recs, cont, k, s, norm, threads, mem: Mem::Max, giant: None, via_cli: true, cohabitant: None, stale: 0 })
             })
             .boxed()
     }
@@ -231,7 +238,7 @@ impl Leg for GiantRecs {
                     1 => (prop::sample::select(b"ACGT".to_vec()), ((1usize << 24) + 8)..=((1usize << 24) + 3_000), proptest::collection::vec((any::<u32>(), prop::sample::select(b"ACGTN".to_vec())), 0..=2))
                         .prop_map(|(b, len, edits)| gen::Giant { unit: crate::util::Bytes(vec![b]), len, edits, rand_seed: None }),
                 ];
-                (gen::records(p), giant).prop_map(move |(recs, giant)| Case { recs, cont: Container::plain_fasta(), k, s, norm, threads, mem: Mem::Max, giant: Some(giant), via_cli, cohabitant: None })
+                (gen::records(p), giant).prop_map(move |(recs, giant)| Case { recs, cont: Container::plain_fasta(), k, s, norm, threads, mem: Mem::Max, giant: Some(giant), via_cli, cohabitant: None, stale: 0 })
             })
             .boxed()
     }
